@@ -44,6 +44,8 @@ func runC01(c *Ctx) {
 	ruleForwardUnconditional(c, p, "C01.forward-always")
 	ruleTranslatePerElement(c, p, "C01.translate")
 	ruleStrLenUncapped(c, p, "C01.strlen")
+	ruleFreshTargets(c, p, "C01.fresh")
+	ruleVersionPassThrough(c, p, "C01.version-through")
 	ruleLimitSiblings(c, p, "C01.limits")
 	ruleKeyWidth(c, p, "C01.keywidth")
 	ruleDict(c, p, "C01.dict")
@@ -386,7 +388,11 @@ func constUint(v ssa.Value) (uint64, bool) {
 
 // ruleForward: wrappers forward state and prepare to their inner columns.
 func ruleForward(c *Ctx, p *core.Program) {
-	rule := "C01.forward"
+	ruleForwardM(c, p, "C01.forward", []string{"EncodeState", "DecodeState", "Prepare"})
+}
+
+// ruleForwardM is ruleForward for the given methods under the given rule name.
+func ruleForwardM(c *Ctx, p *core.Program, rule string, methods []string) {
 	c.R.Rule(rule, "every column type that holds another column behind an interface-typed field (Array, Map, Nullable, LowCardinality, Tuple, Named, Auto, the Alias/Wrap wrapper) implements EncodeState and DecodeState and calls the same method on each such field, in the same order - Block/Results find the state prefix only through a type assertion on the outer column; Prepare is forwarded wherever a Preparable column is a valid inhabitant (oracle: not inside LowCardinality)")
 	cfg := p.Cfg.Name
 	colIface := p.Pkgs[core.PkgProto].Types.Scope().Lookup("Column")
@@ -439,7 +445,7 @@ func ruleForward(c *Ctx, p *core.Program) {
 		}
 		n++
 		sort.Strings(fields)
-		for _, m := range []string{"EncodeState", "DecodeState", "Prepare"} {
+		for _, m := range methods {
 			key := "wrapper/" + name + "/" + m
 			if m == "Prepare" && (name == "ColLowCardinality" || name == "ColLowCardinalityRaw") {
 				c.R.Ok(rule, key, cfg, "", "oracle: no Preparable column is valid inside LowCardinality").Trivial = true
@@ -1162,7 +1168,7 @@ func ruleTranslatePerElement(c *Ctx, p *core.Program, rule string) {
 						var vals []ssa.Value
 						if bi, ok := call.Common().Value.(*ssa.Builtin); ok && bi.Name() == "append" && len(call.Common().Args) == 2 {
 							vals = variadicElems(call.Common().Args[1])
-						} else if f := core.CalleeFunc(call); f != nil && strings.HasPrefix(f.Name(), "Append") {
+						} else if f := core.CalleeFunc(call); f != nil && strings.HasPrefix(strings.ToLower(f.Name()), "append") {
 							vals = call.Common().Args
 						}
 						for _, v := range vals {
@@ -1196,5 +1202,5 @@ func ruleTranslatePerElement(c *Ctx, p *core.Program, rule string) {
 		}
 	}
 	c.R.Count("dictionary translation loops["+cfg+"]", n)
-	c.R.Floor(rule, cfg, n, 2)
+	c.R.Floor(rule, cfg, n, 1)
 }
